@@ -206,6 +206,12 @@ def gen_spheres(p, workdir):
 
 def build_config(spec, workdir):
     cfg = _build_config(spec, workdir)
+    if spec.get("min_event_handlers"):
+        # more particles than the shipped file was written for: every pool must be large enough for the factors of one leg
+        for sec in cfg.sections():
+            if cfg.has_option(sec, "number_event_handlers"):
+                cfg.set(sec, "number_event_handlers", str(max(int(cfg.get(sec, "number_event_handlers")),
+                                                              int(spec["min_event_handlers"]))))
     if spec.get("repeat_trash_tags"):
         # a tag named twice in a trash list is accepted by the activator and harmless (the second trash of the same handler
         # only bumps its lazy-deletion counter / finds nothing to remove); every tag after it must still be honoured. The
